@@ -8,6 +8,7 @@ import (
 	"os"
 	"sort"
 	"testing"
+	"time"
 
 	"github.com/pion/turn/v5/internal/proto"
 	"github.com/pion/turn/v5/verif/rep"
@@ -21,6 +22,8 @@ const (
 	mLargeSingle        // a chunk of every single cut
 	mLargeWindow        // single cuts (and pairs of cuts when pairs is set) inside the boundary windows
 )
+
+var modeNames = []string{"small-basic", "small-all-segmentations", "large-basic", "large-single-cut", "large-boundary-cuts"}
 
 type item struct {
 	ls             []*letter
@@ -68,11 +71,13 @@ func streamLen(ls []*letter) int {
 // order. Shards take every n-th item.
 func buildItems(a *alphabet, thorough bool) []item {
 	var items []item
+	// every one of the 2^(n-1) segmentations is run for streams of at most
+	// this many bytes (frames are 4-aligned, so the limits are multiples of 4)
 	allSegLimit := func(frames int) int {
 		switch {
-		case thorough && frames == 1:
+		case frames == 1 && thorough:
 			return 24
-		case thorough || frames == 1:
+		case frames == 1, frames == 2 && thorough:
 			return 20
 		}
 
@@ -468,20 +473,32 @@ func TestC10Framer(t *testing.T) {
 	}
 
 	items := buildItems(a, rep.Thorough())
+	modeWall, modeEvals := map[string]float64{}, map[string]int64{}
 	shard, nshards := rep.Shard()
 	done := 0
 	for x := shard; x < len(items); x += nshards {
 		if r.OverBudget(fmt.Sprintf("framer work item %d of %d", x, len(items))) {
 			break
 		}
+		t0, e0 := time.Now(), h.evals
 		if err := h.runItem(items[x]); err != nil {
 			t.Fatalf("harness self-check failed: %v", err)
 		}
 		done++
+		mk := modeNames[items[x].mode]
+		if streamLen(items[x].ls) > 1600 {
+			mk += fmt.Sprintf(",%d-frames", len(items[x].ls))
+		}
+		modeWall[mk] += time.Since(t0).Seconds()
+		modeEvals[mk] += h.evals - e0
 	}
 	r.Evaluations = h.evals
 	for k, v := range h.classes {
 		r.Classes[k] += v
+	}
+	for k, v := range modeWall {
+		r.Extra["framer_wall_s:"+k] = v
+		r.Extra["framer_evaluations:"+k] = modeEvals[k]
 	}
 	r.Extra["framer_work_items_total"] = len(items)
 	r.Extra["framer_work_items_done"] = done
